@@ -10,6 +10,7 @@ import common
 sys.path.insert(0, os.path.join(common.VERIF, "tx"))
 import shotable as txsho
 import builders as txbld
+import basiscopy as txcopy
 import c16_bld
 
 NDUMP = 12          # size of the model matrices evaluated in Coq (top-left blocks serve all nbas <= NDUMP)
@@ -176,6 +177,29 @@ def repro_oracle_class(cls, seed, tier):
             'sys.exit(1 if bad else 0)\n' % (cls, seed, tier, cls))
 
 
+def repro_copy(d):
+    return ('import sys, numpy as np\nfrom renormalizer.model import basis as B\n'
+            'cls, kwargs, sym = %r, %r, %r\n'
+            'b = getattr(B, cls)("q", **kwargs)\n'
+            '# copy(new_dof) must return the same basis under a new dof name (TI1DModel cells, tree auxiliary space)\n'
+            'try:\n    c = b.copy("r")\nexcept Exception as e:\n    print(cls, kwargs, ".copy raised", repr(e)); sys.exit(1)\n'
+            'if sym is None:\n    print("copy ok"); sys.exit(0)\n'
+            'A, C = np.asarray(b.op_mat(sym)), np.asarray(c.op_mat(sym))\n'
+            'print(cls, kwargs, sym, "max |copy - original| =", np.abs(A - C).max())\n'
+            'sys.exit(0 if np.allclose(A, C, rtol=0, atol=1e-9 * max(1, np.abs(A).max())) else 1)\n' % (d.get("basis"), d.get("kwargs", {}), d.get("symbol")))
+
+
+def repro_copy_any(d):
+    if d.get("basis") in ("BasisSHO", "BasisSineDVR", "BasisDummy", "BasisHopsBoson") and ("symbol" in d or d.get("what") == "copy raised"):
+        return repro_copy(d)
+    if d.get("basis") == "BasisSimpleElectron" and "sigmaqn" in d.get("kwargs", {}):
+        return ('import sys, numpy as np\nfrom renormalizer.model import basis as B\n'
+                'b = B.BasisSimpleElectron("e", sigmaqn=%r); c = b.copy("f")\n'
+                'print("sigmaqn", b.sigmaqn.tolist(), "copy", c.sigmaqn.tolist())\n'
+                'sys.exit(0 if np.array_equal(b.sigmaqn, c.sigmaqn) else 1)\n' % (d["kwargs"]["sigmaqn"],))
+    return None
+
+
 REPRO = {"sho-product-symbol": repro_sho_product, "sho-x0-product-symbols": repro_sho_product,
          "sho-dvr-unrotated-symbols": repro_dvr_frame, "sho-power": repro_power}
 
@@ -184,6 +208,12 @@ ORACLE_WHAT = {
     "sho-x0-product-symbols": "theorem C16_sho_shifted_origin on the real code (product symbols): the branch is not the product of the shifted x with p / dx",
     "sho-dvr-unrotated-symbols": "theorem C16_sho_dvr_frame on the real code: with dvr=True a product symbol is not returned in the frame of op_mat('x'), op_mat('p')",
     "sho-commutator": "theorem C16_sho_commutator on the real code",
+    "basis-copy": "theorem C16_copy_forwards on the real code: b.copy(new_dof) is not the same basis (its local matrices differ)",
+    "basis-copy-sinedvr-drops-flags": "theorem C16_copy_forwards on the real code (BasisSineDVR): copy does not forward `dvr` / `quadrature`, which op_mat reads",
+    "basis-copy-dummy-raises": "theorem C16_copy_forwards on the real code (BasisDummy): copy hands an attribute to the wrong constructor parameter and raises",
+    "basis-copy-sigmaqn": "theorem C16_copy_forwards on the real code: copy does not forward the quantum numbers (sigmaqn) of the basis",
+    "ti1d-shifted-cell": "TI1DModel with a shifted-origin / DVR unit-cell oscillator does not generate the documented Hamiltonian (per-cell bases are made by copy)",
+    "tree-aux-copy": "BasisTree.add_auxiliary_space: the auxiliary (Q) basis is not the same basis as the physical one",
     "sho-power": "position/momentum powers = powers of the exact operators (C16_x_power_partial / oracle)",
     "sho-general-xp-power": "general_xp_power=True agrees with the hard-coded branches",
     "sho-shifted-origin": "theorem C16_sho_shifted_origin on the real code",
@@ -197,6 +227,7 @@ def run(ctx):
     t0 = time.time()
     ctx.trusted += [
         "translator tx/builders.py (python ast of the term / site loops of TI1DModel, HolsteinModel, SpinBosonModel, heisenberg_ops, construct_j_matrix, Mol.__init__, Phonon.reorganization_energy -> Gallina; fail-closed; non-generating statements compared with a whitelist; numpy helpers np.ones/np.diag/item assignment modelled by np_vec/np_diag/mat_set); exact correspondence of model.ham_terms / model.basis on dyadic parameters (harness/c16_bld.py)",
+        "translator tx/basiscopy.py (structural facts about __init__ / copy / op_mat of every BasisSet subclass; the verdict is computed in Coq, Model/BasisCopy.v)",
         "translator tx/shotable.py (python ast of BasisSHO.op_mat -> prefactor + rational combination of ladder monomials; fail-closed; primitive matrices recognised by exact source text)",
         "hand-written models Model/Ladder.v (monomials in the rational picture, shift_spec, xpow_rat), Model/Pauli.v (spin_symbols, unit matrices), Model/SineDvr.v (closed forms): tied by correspondence harness/c16.py + harness/impl/c16_sho.py",
         "float conversion in harness/c16.py: entry = rational * sqrt(m!/n!) * omega^(sw/2) * 2^(k2/2) * i^ki, compared at 1e-12 relative (1e-10 for the general power formula)",
@@ -229,6 +260,14 @@ def run(ctx):
         ctx.notes.append("translator tx/builders.py failed: %r" % (e,))
         broken.append("translator tx/builders.py: %r" % (e,))
         ctx.obligations.append({"name": "translator tx/builders.py -> Gen/Builders.v", "file": "Gen/Builders.v", "ok": False, "assumptions": None})
+    copy_ok = False
+    try:
+        ctx.regen("Gen/BasisCopy.v", txcopy.main(common.REPO)[0])
+        copy_ok = True
+    except Exception as e:
+        ctx.notes.append("translator tx/basiscopy.py failed: %r" % (e,))
+        broken.append("translator tx/basiscopy.py: %r" % (e,))
+        ctx.obligations.append({"name": "translator tx/basiscopy.py -> Gen/BasisCopy.v", "file": "Gen/BasisCopy.v", "ok": False, "assumptions": None})
     # ---- 2. build + props
     ok_models, log_m = ctx.coq_make(["Gen/ShoTable.vo", "Model/Pauli.vo", "Model/SineDvr.vo"]) if tab is not None else (False, "translator failed")
     ok_bmodels = False
@@ -237,15 +276,20 @@ def run(ctx):
         if not ok_bmodels:
             broken.append("Gen/Builders.v does not compile")
             detail["builders_log_tail"] = log_b[-800:]
+    ok_cmodels = False
+    if copy_ok:
+        ok_cmodels, log_c = ctx.coq_make(["Gen/BasisCopy.vo"])
+        if not ok_cmodels:
+            broken.append("Gen/BasisCopy.v does not compile")
     ok_build, log = (False, log_m)
-    if ok_models and ok_bmodels:
-        ok_build, log = ctx.coq_make(["Proofs/LadderProofs.vo", "Proofs/PauliProofs.vo", "Proofs/SineDvrProofs.vo", "Proofs/BuildersProofs.vo"])
+    if ok_models and ok_bmodels and ok_cmodels:
+        ok_build, log = ctx.coq_make(["Proofs/LadderProofs.vo", "Proofs/PauliProofs.vo", "Proofs/SineDvrProofs.vo", "Proofs/BuildersProofs.vo", "Proofs/BasisCopyProofs.vo"])
     ok_props = False
     if ok_build:
         ok_props, log = ctx.props("Props/C16.v")
         if not ok_props:
             broken.append("theorem(s) of Props/C16.v: " + ", ".join(o["name"] for o in ctx.obligations if not o["ok"]))
-    elif tab is not None and bld_ok:
+    elif tab is not None and bld_ok and copy_ok:
         ctx.obligations.append({"name": "C16 (build of Gen/ShoTable.v, Gen/Builders.v + Proofs/{Ladder,Pauli,SineDvr,Builders}Proofs.v)", "file": "Proofs/LadderProofs.v", "ok": False, "assumptions": None})
         import re as _re
         which = sorted(set(_re.findall(r'File "\./(Proofs/\w+\.v)", line \d+, characters [\d-]+:\s*\n\s*Error', log or "")))
@@ -288,6 +332,19 @@ def run(ctx):
     if model is not None and res is not None:
         ev, nontriv = correspond(model, res, payload, corr_bad, samples, dist)
         detail["model_flags"] = model["flags"]
+    copy_flags = {}
+    if ok_cmodels:
+        rcc, outc = ctx.coq_eval("copy", "From Coq Require Import List String Bool ZArith.\nImport ListNotations.\nFrom RV Require Import Model.BasisCopy Gen.BasisCopy.\n"
+                                 "Eval vm_compute in (map (fun n => match find_class n basis_classes with Some c => if class_ok c then 1%Z else 0%Z | None => (-1)%Z end) all_basis_classes).\n"
+                                 "Eval vm_compute in (map (fun c => if existsb (String.eqb (bc_name c)) all_basis_classes then 1%Z else 0%Z) basis_classes).\n")
+        ls = common.parse_Z_lists(outc) if rcc == 0 else []
+        names = ["BasisSHO", "BasisHopsBoson", "BasisMultiElectron", "BasisMultiElectronVac", "BasisSimpleElectron", "BasisHalfSpin", "BasisSineDVR", "BasisDummy"]
+        if len(ls) == 2 and len(ls[0]) == len(names):
+            copy_flags = dict(zip(names, ls[0]))
+            if not all(ls[1]):
+                corr_bad.append({"what": "a BasisSet subclass of the source is not covered by the copy obligation"})
+        else:
+            corr_bad.append({"what": "copy obligation: model evaluation failed", "out": outc[-600:]})
     # builders: exact correspondence of ham_terms / basis with Gen/Builders.v
     if ok_bmodels:
         ev_b, nt_b = c16_bld.run(ctx, corr_bad, dist, samples)
@@ -307,7 +364,9 @@ def run(ctx):
         detail["oracle_checks"] = ores["checks"]
         detail["oracle_nfail"] = ores["nfail"]
     # model-level findings derived from the generated tables
-    flags = model["flags"] if model else {}
+    flags = dict(model["flags"]) if model else {}
+    flags["copy_class_false"] = [k for k, v in copy_flags.items() if v != 1]
+    detail["copy_class_ok"] = copy_flags
     # ---- 5. report
     reported = set()
     for f in ofails:
@@ -321,7 +380,13 @@ def run(ctx):
             br += "; Ladder.dvr_check false for " + ", ".join(flags["dvr_none_products"])
         if broken:
             br += " || also broken: " + "; ".join(broken)
-        rep = REPRO[cls](d) if cls in REPRO else repro_oracle_class(cls, ctx.seed, ctx.tier)
+        rep = REPRO[cls](d) if cls in REPRO else None
+        if rep is None and cls.startswith("basis-copy"):
+            rep = repro_copy_any(d)
+        if rep is None:
+            rep = repro_oracle_class(cls, ctx.seed, ctx.tier)
+        if cls.startswith("basis-copy") and flags.get("copy_class_false"):
+            br += "; Model.BasisCopy.class_ok false for " + ", ".join(flags["copy_class_false"])
         ctx.violation(cls, br, {"failing_input": d, "failures_in_class": ores["nfail"].get(cls), **{k: v for k, v in detail.items() if k in ("model_flags", "correspondence")}},
                       found=True, repro=rep)
         reported.add(cls)
@@ -329,6 +394,9 @@ def run(ctx):
     if broken and not ofails:
         ctx.violation("c16-model-tie", "; ".join(broken), detail, found=False)
     # model-level flags without an oracle witness
+    for cname, key in (("BasisSineDVR", "basis-copy-sinedvr-drops-flags"), ("BasisDummy", "basis-copy-dummy-raises")):
+        if cname in flags.get("copy_class_false", []) and key not in reported:
+            ctx.violation(key, "Model.BasisCopy.class_ok false for " + cname, detail, found=False)
     prod_shift = [x for x in flags.get("shift_check_false", []) if x in ("x p", "p x", "x dx", "dx x")]
     other_shift = [x for x in flags.get("shift_check_false", []) if x not in prod_shift]
     if prod_shift and "sho-x0-product-symbols" not in reported:
